@@ -1278,6 +1278,66 @@ func (h *H) DeleteMonitored(meas, pred string, lo, hi *int64) string {
 	}
 }
 
+// onePlan hands the engine's compaction loop one level-1 group, once.
+type onePlan struct {
+	mu    sync.Mutex
+	group tsm1.CompactionGroup
+	given bool
+}
+
+func (p *onePlan) PlanLevel(level int) []tsm1.CompactionGroup {
+	p.mu.Lock()
+	defer p.mu.Unlock()
+	if level != 1 || p.given {
+		return nil
+	}
+	p.given = true
+	return []tsm1.CompactionGroup{p.group}
+}
+func (p *onePlan) Plan(time.Time) []tsm1.CompactionGroup { return nil }
+func (p *onePlan) PlanOptimize() []tsm1.CompactionGroup  { return nil }
+func (p *onePlan) Release([]tsm1.CompactionGroup)        {}
+func (p *onePlan) FullyCompacted() bool                  { return true }
+func (p *onePlan) ForceFull()                            {}
+func (p *onePlan) SetFileStore(*tsm1.FileStore)          {}
+
+// DeleteHeld: the engine's own compaction loop compacts all files and is held between writing
+// its output and installing it. Two deletes arrive meanwhile: one over an instant that holds
+// nothing (it is the one that stops the compactions and waits for the running one), then the
+// delete asked for. Whatever either of them does to the compaction's inputs must not be lost
+// when the output replaces them.
+func (h *H) DeleteHeld(meas, pred string, lo, hi *int64) string {
+	e := h.Engine()
+	files := h.Files()
+	if e == nil || len(files) < 2 {
+		return h.DeleteB(meas, pred, lo, hi)
+	}
+	g := h.Arm("compact.written")
+	e.CompactionPlan = &onePlan{group: files}
+	e.SetCompactionsEnabled(true)
+	select {
+	case <-g.Reached:
+	case <-time.After(8 * time.Second):
+		h.disarm("compact.written")
+		h.quiet()
+		return h.DeleteB(meas, pred, lo, hi)
+	}
+	far := MirrorTime + 12345
+	ares := make(chan string, 1)
+	go func() { ares <- h.DeleteB(meas, "-", &far, &far) }()
+	time.Sleep(150 * time.Millisecond)
+	bres := make(chan string, 1)
+	go func() { bres <- h.DeleteB(meas, pred, lo, hi) }()
+	time.Sleep(400 * time.Millisecond)
+	close(g.Release)
+	a, b := <-ares, <-bres
+	h.quiet()
+	if a != "ok" {
+		return a
+	}
+	return b
+}
+
 // SnapHold starts a cache snapshot and holds it after its file is written, before it is
 // installed; SnapRelease lets it finish.
 func (h *H) SnapHold() string {
@@ -1500,7 +1560,7 @@ func (h *H) Step(op string) (out string) {
 			return "err:" + strings.ReplaceAll(err.Error(), " ", "_")
 		}
 		return "ok"
-	case "del", "snapdel", "delprobe", "delmon":
+	case "del", "snapdel", "delprobe", "delmon", "delheld":
 		var lo, hi *int64
 		if f[3] != "-inf" {
 			v := i64(f[3])
@@ -1518,6 +1578,9 @@ func (h *H) Step(op string) (out string) {
 		}
 		if f[0] == "delmon" {
 			return h.DeleteMonitored(f[1], f[2], lo, hi)
+		}
+		if f[0] == "delheld" {
+			return h.DeleteHeld(f[1], f[2], lo, hi)
 		}
 		return h.DeleteB(f[1], f[2], lo, hi)
 	case "dropm":
